@@ -83,7 +83,7 @@ void XalanParsedURI::parse(
         ++index;
     }
     
-    if (index > 0 && uriString[index] == XalanUnicode::charColon)
+    if (index > 0 && index < uriStringLen && uriString[index] == XalanUnicode::charColon)
     {
         m_scheme = XalanDOMString(uriString, getMemoryManager(), index);
         ++index;
@@ -96,7 +96,7 @@ void XalanParsedURI::parse(
     }
 
     // Authority portion
-    if (index < uriStringLen - 1 &&
+    if (index + 1 < uriStringLen &&
         uriString[index] == XalanUnicode::charSolidus && 
         uriString[index+1] == XalanUnicode::charSolidus) 
     {
